@@ -533,6 +533,17 @@ func c14WaitFile(p string, d time.Duration) bool {
 	}
 }
 
+// c14Positional: x occurs in argv as an argument that is not the value of a preceding option.
+func c14Positional(argv []string, x string) bool {
+	valued := map[string]bool{"-p": true, "-o": true, "-l": true, "-F": true, "-i": true, "-s": false}
+	for i, a := range argv {
+		if a == x && (i == 0 || !valued[argv[i-1]]) {
+			return true
+		}
+	}
+	return false
+}
+
 func c14Adjacent(argv []string, a, b string) bool {
 	for i := 0; i+1 < len(argv); i++ {
 		if argv[i] == a && argv[i+1] == b {
@@ -695,11 +706,14 @@ func runC14Case(id string, c *c14Case) {
 			c14Fail(cs, "C14:password-in-argv", fmt.Sprintf("password on the command line: %q", argv))
 		}
 	}
-	if len(argv) < 3 || argv[0] != host {
-		c14Fail(cs, "C14:host", fmt.Sprintf("argv[0] is not the host %q: %q", host, argv))
+	// the property: "targets the configured host, port": the host is a positional argument of the
+	// command line and the port is named by exactly one -p option, wherever they stand (their
+	// positions are facts of the model's theorems, not of the property)
+	if !c14Positional(argv, host) {
+		c14Fail(cs, "C14:host", fmt.Sprintf("the host %q is not a positional argument: %q", host, argv))
 	}
-	if len(argv) >= 3 && (argv[1] != "-p" || argv[2] != strconv.Itoa(port)) {
-		c14Fail(cs, "C14:port", fmt.Sprintf("host not followed by -p %d: %q", port, argv))
+	if !(c14Adjacent(argv, "-p", strconv.Itoa(port)) && c14Count(argv, "-p") == 1) {
+		c14Fail(cs, "C14:port", fmt.Sprintf("-p %d missing (or -p given more than once): %q", port, argv))
 	}
 	if c.User != "" && !(c14Adjacent(argv, "-l", c.User) && c14Count(argv, "-l") == 1) {
 		c14Fail(cs, "C14:user", fmt.Sprintf("-l %q missing: %q", c.User, argv))
